@@ -18,6 +18,9 @@ func init() {
 const pkgBRInfo = "pkg/scheduler/api/bindrequest_info"
 
 func runC12(c *Ctx) {
+	runC12CleanupScansEveryCycle(c)
+	runC12AssumeEveryBindRequest(c)
+	borrow(c, "O14", "C13", "O5", "Commit does not call Discard", "a pod whose BindRequest was already created stays charged to its node for the rest of the cycle: undoing it because a later BindRequest of the same statement failed hands its resources to the next workload while the binder binds it")
 	borrow(c, "O10", "C11", "O12", "", "the scheduler learns the outcome of a bind attempt only from the BindRequest's status: a failed bind persisted as Succeeded is never retried by the binder and never deleted by the scheduler, and the unbound pod stays Binding — charged to its node — for ever")
 	borrow(c, "O11", "C11", "O1", "pods/binding create is the last fallible step", "a step that can fail after the pod was bound turns a successful bind into a Failed request: the rollback strips the bound pod's GPU-group label, the scheduler deletes the terminally failed request, and later snapshots charge nothing for the running pod")
 	runC12ClaimName(c)
@@ -542,4 +545,70 @@ func phiLeaves(v ssa.Value) []ssa.Value {
 	}
 	walk(v)
 	return out
+}
+
+// runC12CleanupScansEveryCycle (O12): cleanStaleBindRequest has two duties — requests for deleted nodes and requests
+// the binder has given up on. Both scans are on every path: no exit of the function comes before the scan of the
+// request map (a fast path keyed on the other list being empty skips it for good, and a terminally failed request
+// keeps its pod unschedulable: creating the new request fails with AlreadyExists in every cycle).
+func runC12CleanupScansEveryCycle(c *Ctx) {
+	f := c.Anchor("O12", "pkg/scheduler/cache", "SchedulerCache", "cleanStaleBindRequest")
+	if f == nil {
+		return
+	}
+	n := 0
+	for k := 1; k <= 2 && k < len(f.Params); k++ {
+		prm := f.Params[k]
+		scans := func(in ssa.Instruction) bool {
+			switch x := in.(type) {
+			case *ssa.Range:
+				return x.X == ssa.Value(prm)
+			case *ssa.IndexAddr:
+				return x.X == ssa.Value(prm)
+			case ssa.CallInstruction:
+				// handed to a helper / stdlib iterator as a whole
+				for _, a := range x.Common().Args {
+					if a == ssa.Value(prm) {
+						if bi, isB := x.Common().Value.(*ssa.Builtin); isB && bi.Name() == "len" {
+							// the bound of a loop over a slice (an empty slice is scanned by looking at its length)
+							_, isSlice := prm.Type().Underlying().(*types.Slice)
+							return isSlice
+						}
+						return true
+					}
+				}
+			}
+			return false
+		}
+		if len(instrsIn(f, scans)) == 0 {
+			continue
+		}
+		n++
+		_, path, found := reachAvoiding([]cfgPos{entryPos(f)}, isReturn, scans, nil)
+		c.Check(!found, "O12", "MPT", funcKey(f)+": "+prm.Name()+" is scanned on every path", f.Pos(), "no exit before the scan",
+			"the clean-up can return without looking at "+prm.Name()+" ("+pathStr(path)+"): stale BindRequests of that kind are never deleted in such cycles, a terminally failed request keeps blocking its pod (the new request collides with it) while younger workloads are bound")
+	}
+	c.Floor("O12", "MPT scans of the stale-request clean-up", n, 2)
+}
+
+// runC12AssumeEveryBindRequest (O13): at session open the DRA plugin marks the devices of every pod that has a
+// BindRequest as taken, whatever the pod's status says at that moment (the pod and claim informers lag independently):
+// assumePendingClaims walks all pods of every pod group.
+func runC12AssumeEveryBindRequest(c *Ctx) {
+	f := c.Anchor("O13", "pkg/scheduler/plugins/dynamicresources", "draPlugin", "assumePendingClaims")
+	if f == nil {
+		return
+	}
+	n := 0
+	for _, in := range instrsIn(f, func(in ssa.Instruction) bool { _, ok := in.(*ssa.Range); return ok }) {
+		r := in.(*ssa.Range)
+		if !strings.Contains(typeKey(r.X.Type().Underlying()), "pod_info.PodInfo") {
+			continue
+		}
+		n++
+		t := termOf(r.X)
+		all := t.Op == "call" && t.Fn != nil && t.Fn.Name() == "GetAllPodsMap"
+		c.Check(all, "O13", "PROV", funcKey(f)+": the claims of every pod with a BindRequest are assumed", instrPos(in), "range over GetAllPodsMap()", "the pods whose BindRequest claims are assumed are pre-selected ("+trunc(t.String(), 80)+"): a pod that is already bound (or terminating) while its claim still looks unallocated to the scheduler is skipped, and its devices are handed to another pod")
+	}
+	c.Floor("O13", "PROV pod loops of assumePendingClaims", n, 1)
 }
